@@ -693,7 +693,7 @@ impl Property for C19 {
     }
     fn budget(tier: Tier) -> u64 {
         match tier {
-            Tier::Quick => 3_000_000,
+            Tier::Quick => 2_000_000,
             Tier::Thorough => 24_000_000,
         }
     }
